@@ -12,7 +12,7 @@
 EXTENDS Integers, Sequences, FiniteSets
 
 VARIABLES
-    cfg,     \* the iteration: [kind, d, k, n (channels), w (weight pattern), bins, calls (requested)]
+    cfg,     \* the iteration: [kind, d, k, n (channels), w (weight pattern), bins, calls (requested), noSq]
     phase,   \* "Idle" | "Drawn" | "Mapped" | "Evaluating" | "Returned"
     pos,     \* raw generator outputs consumed so far in this iteration
     cur,     \* the call in flight: [chan, rn, caddr, csum, daddr, wreq, dens, v, w, p, bin]
@@ -143,7 +143,8 @@ ResultOK(r) ==
     /\ r.nz = acc'.nz /\ r.fin = acc'.fin
     /\ acc'.fin <= acc'.nz /\ acc'.nz <= acc'.calls
     /\ pos = cfg.calls * PerCall(cfg)
-    /\ acc'.exact => (r.sum = acc'.sum /\ r.sumsq = acc'.sumsq /\ r.adj = acc'.adj)
+    \* (noSq: the values of this iteration are so small that their squares underflow in the numeric type; only the sum is compared)
+    /\ acc'.exact => (r.sum = acc'.sum /\ (cfg.noSq \/ (r.sumsq = acc'.sumsq /\ r.adj = acc'.adj)))
 
 \* ---- invariants of the state machine itself (checked by TLC on MC_Call)
 TypeOK ==
